@@ -440,6 +440,7 @@ func init() {
 				}
 			}
 		}
+		strHistories(e, r, thorough)
 		docs := 800
 		if thorough {
 			docs = 20000
